@@ -1,1 +1,183 @@
-// shared pieces of the client-side harness binaries
+//! Shared pieces of the client-side harness: the scripted transport `MockIo` (partial reads and
+//! writes, `Pending` with or without wake-up, EOF; records the effective outcome of every transport
+//! call) and a hand poller with a counting waker (no tokio runtime is needed).
+
+use std::collections::VecDeque;
+use std::pin::Pin;
+use std::sync::atomic::{AtomicUsize, Ordering};
+use std::sync::Arc;
+use std::task::{Context, Poll, Wake, Waker};
+use tokio::io::{AsyncRead, AsyncWrite, ReadBuf};
+
+#[derive(Clone, Debug)]
+pub enum RDir {
+    Go(usize),
+    Pending,
+    PendingWake,
+}
+
+#[derive(Clone, Debug)]
+pub enum WDir {
+    Acc(usize),
+    Pending,
+    PendingWake,
+}
+
+#[derive(Clone, Debug)]
+pub enum FDir {
+    Ok,
+    Pending,
+    PendingWake,
+}
+
+#[derive(Default)]
+pub struct MockIo {
+    /// bytes the server has sent and the transport has not yet delivered
+    pub incoming: VecDeque<u8>,
+    pub rscript: VecDeque<RDir>,
+    pub wscript: VecDeque<WDir>,
+    pub fscript: VecDeque<FDir>,
+    /// when `incoming` is exhausted: EOF (true) or a silent peer (false)
+    pub eof_at_end: bool,
+    /// effective outcome of every poll_read, in order: `d<hex>` | `p` | `e`
+    pub revents: Vec<String>,
+    /// effective outcome of every poll_write / poll_flush, in order: `a<n>` | `p` | `f`
+    pub wevents: Vec<String>,
+    /// one char per transport call since the last `take_calls`: r / w / f
+    pub calls: String,
+    /// did any transport call since the last `take_calls` return Pending?
+    pub pending_seen: bool,
+    /// every byte accepted by poll_write, in order
+    pub written: Vec<u8>,
+    /// (length of `written`, was the last flush complete) at the moment of each poll_read
+    pub read_marks: Vec<(usize, bool)>,
+    pub flushed_upto: usize,
+    pub wakes_requested: usize,
+}
+
+impl MockIo {
+    pub fn take_calls(&mut self) -> (String, bool) {
+        let c = std::mem::take(&mut self.calls);
+        let p = self.pending_seen;
+        self.pending_seen = false;
+        (c, p)
+    }
+    /// nothing more will ever arrive and nothing is scripted: a Pending now is final
+    pub fn read_side_silent(&self) -> bool {
+        self.incoming.is_empty() && !self.eof_at_end
+    }
+}
+
+fn hex(b: &[u8]) -> String {
+    let mut s = String::with_capacity(b.len() * 2);
+    for c in b {
+        s.push(char::from_digit((c >> 4) as u32, 16).unwrap());
+        s.push(char::from_digit((c & 15) as u32, 16).unwrap());
+    }
+    s
+}
+
+impl AsyncRead for MockIo {
+    fn poll_read(mut self: Pin<&mut Self>, cx: &mut Context<'_>, buf: &mut ReadBuf<'_>) -> Poll<std::io::Result<()>> {
+        let me = &mut *self;
+        me.calls.push('r');
+        let flushed = me.flushed_upto == me.written.len();
+        me.read_marks.push((me.written.len(), flushed));
+        let dir = me.rscript.pop_front().unwrap_or(RDir::Go(usize::MAX));
+        match dir {
+            RDir::Pending | RDir::PendingWake => {
+                if let RDir::PendingWake = dir {
+                    me.wakes_requested += 1;
+                    cx.waker().wake_by_ref();
+                }
+                me.revents.push("p".to_string());
+                me.pending_seen = true;
+                Poll::Pending
+            }
+            RDir::Go(k) => {
+                let n = std::cmp::min(std::cmp::min(std::cmp::max(k, 1), me.incoming.len()), buf.remaining());
+                if n == 0 {
+                    if me.incoming.is_empty() && me.eof_at_end {
+                        me.revents.push("e".to_string());
+                        Poll::Ready(Ok(()))
+                    } else {
+                        // silent peer (or no room): not ready, nobody will wake us
+                        me.revents.push("p".to_string());
+                        me.pending_seen = true;
+                        Poll::Pending
+                    }
+                } else {
+                    let chunk: Vec<u8> = me.incoming.drain(..n).collect();
+                    buf.put_slice(&chunk);
+                    me.revents.push(format!("d{}", hex(&chunk)));
+                    Poll::Ready(Ok(()))
+                }
+            }
+        }
+    }
+}
+
+impl AsyncWrite for MockIo {
+    fn poll_write(mut self: Pin<&mut Self>, cx: &mut Context<'_>, data: &[u8]) -> Poll<std::io::Result<usize>> {
+        let me = &mut *self;
+        me.calls.push('w');
+        let dir = me.wscript.pop_front().unwrap_or(WDir::Acc(usize::MAX));
+        match dir {
+            WDir::Pending | WDir::PendingWake => {
+                if let WDir::PendingWake = dir {
+                    me.wakes_requested += 1;
+                    cx.waker().wake_by_ref();
+                }
+                me.wevents.push("p".to_string());
+                me.pending_seen = true;
+                Poll::Pending
+            }
+            WDir::Acc(k) => {
+                let n = std::cmp::min(std::cmp::max(k, 1), data.len());
+                me.written.extend_from_slice(&data[..n]);
+                me.wevents.push(format!("a{}", n));
+                Poll::Ready(Ok(n))
+            }
+        }
+    }
+    fn poll_flush(mut self: Pin<&mut Self>, cx: &mut Context<'_>) -> Poll<std::io::Result<()>> {
+        let me = &mut *self;
+        me.calls.push('f');
+        let dir = me.fscript.pop_front().unwrap_or(FDir::Ok);
+        match dir {
+            FDir::Pending | FDir::PendingWake => {
+                if let FDir::PendingWake = dir {
+                    me.wakes_requested += 1;
+                    cx.waker().wake_by_ref();
+                }
+                me.wevents.push("p".to_string());
+                me.pending_seen = true;
+                Poll::Pending
+            }
+            FDir::Ok => {
+                me.flushed_upto = me.written.len();
+                me.wevents.push("f".to_string());
+                Poll::Ready(Ok(()))
+            }
+        }
+    }
+    fn poll_shutdown(self: Pin<&mut Self>, _cx: &mut Context<'_>) -> Poll<std::io::Result<()>> {
+        Poll::Ready(Ok(()))
+    }
+}
+
+pub struct CountWake(pub AtomicUsize);
+impl Wake for CountWake {
+    fn wake(self: Arc<Self>) {
+        self.0.fetch_add(1, Ordering::SeqCst);
+    }
+    fn wake_by_ref(self: &Arc<Self>) {
+        self.0.fetch_add(1, Ordering::SeqCst);
+    }
+}
+
+pub fn counting_waker() -> (Arc<CountWake>, Waker) {
+    let a = Arc::new(CountWake(AtomicUsize::new(0)));
+    let w = Waker::from(a.clone());
+    (a, w)
+}
